@@ -833,7 +833,8 @@ class Object(ObjectAliasMixin):
             for self_path in self.filepath:
                 with suppress(ValueError):
                     return self_path.relative_to(cwd)
-            raise ValueError(f"No directory in {self.filepath!r} is relative to the current working directory {cwd}")
+            # Like for a single path: not relative to the current working directory, return an absolute path.
+            return self.filepath[0]
         try:
             return self.filepath.relative_to(cwd)
         except ValueError:
